@@ -196,6 +196,30 @@ Fixpoint spec_ops (infos : list binfo) (ops : list hstep) : list binfo * list (o
       end
   end.
 
+(* the foreign errors converted ALONG THE CHAIN of every cell, from the history alone: a derivation
+   inherits the list of its receiver, Convert/ConvertS of foreign error k adds k.  The property's
+   "Convert makes errors.Is(result, e) true" is kept by everything derived from the result: whatever
+   method follows (Base, DTag, Msg, Stack, a further Convert, ...), after k Converts all k converted
+   errors still match (seeded change C06-32: a fast path of CloneBase for Base() returned before
+   laterSrcErrors was handed on). *)
+Fixpoint spec_convs (convs : list (list nat)) (ops : list hstep) : list (list nat) :=
+  match ops with
+  | [] => convs
+  | HFac _ :: rest => spec_convs convs rest
+  | HOp o :: rest =>
+      match ref_cell (o_recv o) with
+      | None => convs
+      | Some ri =>
+          if is_convert (o_m o) && (match ref_cell (o_err o) with Some _ => true | None => false end)
+          then spec_convs convs rest
+          else
+            let inh := nth ri convs [] in
+            let new := if is_convert (o_m o)
+                       then match o_err o with RF k => inh ++ [k] | _ => inh end else inh in
+            spec_convs (convs ++ [new]) rest
+      end
+  end.
+
 (* the gerror value a foreign error wraps (through any number of foreign wrappers), if any *)
 Fixpoint wrapped_cell (v : val) : option nat :=
   match v with
